@@ -1,3 +1,4 @@
+@pos.setter
 def spec(self, value):
     if value is not None:
         self._pos.append(value)
